@@ -20,6 +20,12 @@
 //     Phase E: the same over MC_ApqEvict*.cfg (LRU capacity 1..3, more texts
 //     than capacity: the cache is full and evicts), plus one scenario per
 //     evicting edge (hash-only for the evicted hash, re-registration of it).
+//     Phase T: the near-twin model MC_ApqTwin.cfg (the hash is an explicit
+//     function Text -> HashValue; texts that a lossy normalisation would
+//     identify; upper-case spelling of a digest); two negative configurations
+//     with a non-injective hash must be refuted by TLC; per twin kind the
+//     scenarios "each twin sent with the real SHA-256 of the other"; scenarios
+//     with a parsed-document cache where a wrong-hash request comes first.
 //  3. Mechanism B: long random histories (sequential and with concurrent
 //     clients, POST bodies and GET query strings, bigger alphabet, LRU
 //     capacity 1..4 with eviction) are recorded and validated by TLC against
@@ -249,6 +255,131 @@ func main() {
 	fmt.Fprintf(os.Stderr, "[c15] E: TLC %s: %d states, %d edges; %d covering tours + %d eviction scenarios, %d replays (%d left the implementation-level machine), %d requests, %d hash-only requests for an evicted hash, %d re-registrations of an evicted hash, %.1fs\n",
 		ecfg, emc.Distinct, len(eg.edges), nTours, len(scen), len(ehs), edrifted, ereq, evSeenE, reAddE, time.Since(tE).Seconds())
 
+	// ---- 2c. phase T: near-twin texts, spellings of a digest, document-cache poisoning ----
+	tT := time.Now()
+	ttexts, twrong, talts := []string{"q1", "q1x", "q2"}, []string{"x:rand", "u:q1"}, []string{"u:q1"}
+	type negRes struct {
+		cfg, want string
+		r         *vlib.TLCResult
+		err       error
+	}
+	negDone := make(chan negRes, 2)
+	for _, n := range []negRes{{cfg: "MC_ApqTwin_neg.cfg", want: "Invariant Bound is violated"}, {cfg: "MC_ApqTwin_neg2.cfg", want: "Action property ImplConforms is violated"}} {
+		go func(n negRes) {
+			n.r, n.err = vlib.RunTLC(vlib.TLCOpts{Module: "MC_Apq", Config: n.cfg, Workers: 1, Scratch: scratch + "/mc-" + strings.TrimSuffix(n.cfg, ".cfg"), Timeout: 10 * time.Minute})
+			negDone <- n
+		}(n)
+	}
+	tmc, err := vlib.RunTLC(vlib.TLCOpts{Module: "MC_Apq", Config: "MC_ApqTwin.cfg", Workers: 1, Coverage: true, Scratch: scratch + "/mc-twin", Timeout: 10 * time.Minute})
+	if err != nil {
+		vlib.Infra("TLC: %v", err)
+	}
+	if !tmc.OK {
+		vlib.Infra("TLC reports an error on the model itself (MC_ApqTwin.cfg):\n%s", tailStr(tmc.Output, 4000))
+	}
+	for _, a := range []string{"HashOnlyHit", "HashOnlyMiss", "TextHashMismatch", "TextHashOK"} {
+		if !actionTaken(tmc.Output, a, "Apq") {
+			vlib.Infra("vacuous model: action %s of Apq was never taken (MC_ApqTwin.cfg)", a)
+		}
+	}
+	c.AddStates(tmc.Distinct, tmc.Generated)
+	tg, err := parseGraph(tmc.Printed)
+	if err != nil {
+		vlib.Infra("state graph (MC_ApqTwin.cfg): %v", err)
+	}
+	if int64(len(tg.edges)) != tmc.Generated-int64(len(tg.inits)) {
+		vlib.Infra("state graph incomplete (MC_ApqTwin.cfg): %d edges printed, TLC generated %d states (%d initial)", len(tg.edges), tmc.Generated, len(tg.inits))
+	}
+	tpaths, err := tg.tours(rand.New(rand.NewSource(seed+99)), maxLen)
+	if err != nil {
+		vlib.Infra("edge cover (MC_ApqTwin.cfg): %v", err)
+	}
+	var ths []*history
+	treq, tdrifted := 0, 0
+	addT := func(h *history, mech string) {
+		h.Mech = mech
+		ths = append(ths, h)
+		treq += len(h.Steps)
+		if h.Drifted {
+			tdrifted++
+		}
+	}
+	for i, p := range tpaths {
+		p = tg.withSweep(p, ttexts)
+		for j, m := range modes {
+			ro := rigOpts{Kind: p[0].S.Kind, Cap: p[0].S.Cap, QCache: m.qcache, TCP: m.tcp && i%4 == 0}
+			h, err := rep.replayPathTwin(fmt.Sprintf("w%03d-%s", i, m.method), p, ttexts, ttexts, twrong, ro, m.method, seed*1000037+int64(i)*13+int64(j), twinKinds[(i+j)%len(twinKinds)])
+			if err != nil {
+				vlib.Infra("replay: %v", err)
+			}
+			addT(h, "T: replay of a TLC-generated tour over the near-twin alphabet (twin kind "+h.cc.Twin+")")
+		}
+	}
+	tscen := tg.twinScenarios(ttexts, talts)
+	if len(tscen) == 0 {
+		vlib.Infra("vacuous near-twin model: no twin scenario is a path of MC_ApqTwin.cfg")
+	}
+	for i, p := range tscen {
+		for k, kind := range twinKinds {
+			for j, m := range modes {
+				ro := rigOpts{Kind: p[0].S.Kind, Cap: p[0].S.Cap, QCache: m.qcache, TCP: m.tcp && (i+k)%8 == 0}
+				h, err := rep.replayPathTwin(fmt.Sprintf("twin%02d-%s-%s", i, kind, m.method), p, ttexts, ttexts, twrong, ro, m.method, seed*1000039+int64(i)*17+int64(k)*5+int64(j), kind)
+				if err != nil {
+					vlib.Infra("replay: %v", err)
+				}
+				addT(h, "T: near-twin scenario ("+kind+"): each twin sent with the SHA-256 of the other must be rejected, execute nothing, register nothing; each digest keeps resolving to its own pre-image")
+			}
+		}
+		if i == 0 {
+			var s []string
+			for _, e := range p {
+				s = append(s, fmt.Sprintf("%s [%s,%s] => %s/%s", e.A.form(), e.A.Text, e.A.Hash, e.O.Class, e.O.Submit))
+			}
+			c.Sample(map[string]any{"mechanism": "T", "cache": p[0].S.Kind, "cap": p[0].S.Cap, "near_twin_scenario": s, "twin_kinds": twinKinds})
+		}
+	}
+	pscen := tg.poisonScenarios(ttexts)
+	if len(pscen) == 0 {
+		vlib.Infra("vacuous model: no document-cache poisoning scenario is a path of MC_ApqTwin.cfg")
+	}
+	for i, p := range pscen {
+		for j, method := range []string{"POST", "GET"} {
+			for _, qs := range []int{1, 4} {
+				ro := rigOpts{Kind: p[0].S.Kind, Cap: p[0].S.Cap, QCache: true, QSize: qs, TCP: tcp && i%12 == 0 && j == 0}
+				h, err := rep.replayPath(fmt.Sprintf("doc%03d-%s-q%d", i, method, qs), p, ttexts, ttexts, twrong, ro, method, seed*1000081+int64(i)*19+int64(j)*3+int64(qs))
+				if err != nil {
+					vlib.Infra("replay: %v", err)
+				}
+				addT(h, fmt.Sprintf("T: parsed-document cache (capacity %d) configured alongside APQ: a text sent with the hash of another text is rejected first, then that hash is used", qs))
+			}
+		}
+	}
+	nTwinReq, nUpperReq := 0, 0
+	for _, h := range ths {
+		for _, st := range h.Steps {
+			switch st.Req.form() {
+			case "text+hash-of-its-near-twin":
+				nTwinReq++
+			case "text+own-hash-in-upper-case-hex":
+				nUpperReq++
+			}
+		}
+	}
+	if nTwinReq == 0 || nUpperReq == 0 {
+		vlib.Infra("vacuous near-twin phase: %d twin-with-the-other's-hash requests, %d upper-case spellings", nTwinReq, nUpperReq)
+	}
+	for i := 0; i < 2; i++ {
+		n := <-negDone
+		if n.err != nil {
+			vlib.Infra("TLC (%s): %v", n.cfg, n.err)
+		}
+		if n.r.OK || !strings.Contains(n.r.Output, n.want) {
+			vlib.Infra("the NEGATIVE configuration %s (non-injective hash: near-twins collide) is not refuted by TLC as expected (%q):\n%s", n.cfg, n.want, tailStr(n.r.Output, 3000))
+		}
+	}
+	fmt.Fprintf(os.Stderr, "[c15] T: TLC MC_ApqTwin.cfg: %d states, %d edges; negative configs (twins collide) refuted: Bound, ImplConforms; %d tours + %d twin scenarios x %d twin kinds + %d document-cache scenarios = %d replays (%d left the implementation-level machine), %d requests, %d twin-with-the-other's-hash, %d upper-case spellings, %.1fs\n",
+		tmc.Distinct, len(tg.edges), len(tpaths), len(tscen), len(twinKinds), len(pscen), len(ths), tdrifted, treq, nTwinReq, nUpperReq, time.Since(tT).Seconds())
+
 	// ---- 3. mechanism B: random histories validated by TLC ------------------
 	tB := time.Now()
 	nh, hlen := 36, 250
@@ -314,13 +445,33 @@ func main() {
 	}
 	// the VERDICT: every observed history (tours of A, histories of B) against the property level
 	tV := time.Now()
-	all := append(append(append([]*history{}, ahs...), ehs...), hs...)
+	all := append(append(append(append([]*history{}, ahs...), ehs...), ths...), hs...)
 	badH, events, err := rep.validateProp(all, scratch+"/trace")
 	if err != nil {
 		vlib.Infra("property-level trace validation: %v", err)
 	}
-	fmt.Fprintf(os.Stderr, "[c15] verdict: %d histories (%d lines) validated by TLC against the property level, %d leave it, %.1fs\n",
-		len(all), events, badH, time.Since(tV).Seconds())
+	badBy := map[string]int{}
+	for _, h := range all {
+		if h.Bad {
+			k := h.Mech
+			if i := strings.IndexAny(k, "(:"); i > 0 && k[0] != 'T' {
+				k = k[:i]
+			} else if k[0] == 'T' {
+				switch {
+				case strings.Contains(k, "near-twin scenario"):
+					k = "T/near-twin scenario"
+				case strings.Contains(k, "parsed-document cache"):
+					k = "T/document-cache scenario"
+				default:
+					k = "T/tour"
+				}
+			}
+			badBy[k]++
+		}
+	}
+	c.Set("histories_leaving_property_level_by_mechanism", badBy)
+	fmt.Fprintf(os.Stderr, "[c15] verdict: %d histories (%d lines) validated by TLC against the property level, %d leave it %v, %.1fs\n",
+		len(all), events, badH, badBy, time.Since(tV).Seconds())
 	// binding of the verdict path, demonstrated on a history that is itself clean
 	selfErr := errNoCandidate
 	for _, h := range hs {
@@ -398,12 +549,17 @@ func main() {
 	c.Set("eviction_model", map[string]any{"config": ecfg, "distinct_states": emc.Distinct, "edges": len(eg.edges), "covering_tours": nTours, "eviction_scenarios": len(scen),
 		"replays": len(ehs), "replayed_requests": ereq, "hash_only_requests_for_an_evicted_hash": evSeenE, "re_registrations_of_an_evicted_hash": reAddE,
 		"meaning": "phase E: Apq composed with the Lru machine (Apq!CacheIsLru) for LRU capacity 1..3 with more valid texts than capacity; every edge replayed through the real AutomaticPersistedQuery{Cache: lru.New[string](N)} behind a real handler, plus one scenario per evicting edge (hash-only for the evicted hash, re-registration of it, hash-only for both); verdict by ApqPropTrace"})
+	c.Set("near_twin_model", map[string]any{"config": "MC_ApqTwin.cfg", "distinct_states": tmc.Distinct, "edges": len(tg.edges),
+		"negative_configs_refuted": []string{"MC_ApqTwin_neg.cfg: Invariant Bound", "MC_ApqTwin_neg2.cfg: ImplConforms"},
+		"twin_kinds": twinKinds, "tours": len(tpaths), "twin_scenarios": len(tscen), "document_cache_scenarios": len(pscen), "replays": len(ths), "replayed_requests": treq,
+		"requests_twin_with_the_others_hash": nTwinReq, "requests_own_hash_in_upper_case_hex": nUpperReq,
+		"meaning": "phase T: the hash is an explicit function Text -> HashValue (HashOf = true SHA-256, injective on an alphabet with NEAR-TWINS; ImplHash = what the code compares with); TLC refutes the model with a non-injective ImplHash; every edge of the twin model and, for each of the 10 twin kinds, scenarios in which each twin is sent with the real SHA-256 of the other (must be a mismatch, execute nothing, register nothing, and the digest keeps resolving to its own pre-image) are replayed over POST and GET, map and LRU; upper-case hex spellings of a digest; scenarios with a parsed-document cache where a wrong-hash request precedes the use of that hash"})
 	c.Set("trace_validation", map[string]any{"histories": len(hs), "requests_each": hlen, "concurrent_histories": nh / 3,
 		"lines_validated_property_level": events, "histories_leaving_property_level": badH, "random_histories_matching_impl_level": implOK, "hash_only_hits": hits, "hash_only_misses": misses,
 		"hash_only_requests_for_an_evicted_hash": stats["lru:evictions"], "re_registrations_of_an_evicted_hash": stats["lru:readded"]})
-	c.Set("wall_s_by_stage", map[string]any{"lru_phase_tlc": ls.TLCs, "lru_phase_replay": ls.Replay, "tlc_model": tMC, "replay": tE.Sub(tA).Seconds(), "eviction_phase": tB.Sub(tE).Seconds(), "random_histories": time.Since(tB).Seconds()})
+	c.Set("wall_s_by_stage", map[string]any{"lru_phase_tlc": ls.TLCs, "lru_phase_replay": ls.Replay, "tlc_model": tMC, "replay": tE.Sub(tA).Seconds(), "eviction_phase": tT.Sub(tE).Seconds(), "near_twin_phase": tB.Sub(tT).Seconds(), "random_histories": time.Since(tB).Seconds()})
 	c.Set("exhaustive", true)
-	c.Set("rule", "L: TLC enumerates the complete labelled state graph of the LRU machine Lru.tla (4 keys x 2 values x capacity 1..3); every edge is replayed on the real lru.New[string](N) in tours and once more followed by a characterising suffix; a case class is (capacity, action of Lru.tla); random histories: class (capacity, number of keys). E: like A over the eviction model (LRU only, more texts than capacity) plus one scenario per evicting edge. A: TLC enumerates the complete labelled state graph of the implementation-level machine of Apq for the bounded alphabet (texts x request forms x cache map/LRU cap); every edge is replayed on the real server at least 3 times (POST, GET, mixed+query cache) inside tours from the initial state and compared exactly (differences = impl_level_drift); a case class is (cache kind, request form, specification outcome). B: seeded random histories over a larger alphabet, recorded on the real server. VERDICT: every observed history of A and B is validated by TLC against the property-level relation Apq!PropRel (ApqPropTrace); a case class is (cache kind, request form, observed outcome class). A case is non-trivial by construction: every class is a distinct (form, outcome) pair; evaluations = requests sent.")
+	c.Set("rule", "T: like A over the near-twin model (texts q1, its near-twin q1x, q2; upper-case spelling of a digest), plus per twin kind the scenarios of replay.go twinScenarios and the document-cache scenarios; class = (cache kind, request form incl. text+hash-of-its-near-twin, outcome). L: TLC enumerates the complete labelled state graph of the LRU machine Lru.tla (4 keys x 2 values x capacity 1..3); every edge is replayed on the real lru.New[string](N) in tours and once more followed by a characterising suffix; a case class is (capacity, action of Lru.tla); random histories: class (capacity, number of keys). E: like A over the eviction model (LRU only, more texts than capacity) plus one scenario per evicting edge. A: TLC enumerates the complete labelled state graph of the implementation-level machine of Apq for the bounded alphabet (texts x request forms x cache map/LRU cap); every edge is replayed on the real server at least 3 times (POST, GET, mixed+query cache) inside tours from the initial state and compared exactly (differences = impl_level_drift); a case class is (cache kind, request form, specification outcome). B: seeded random histories over a larger alphabet, recorded on the real server. VERDICT: every observed history of A and B is validated by TLC against the property-level relation Apq!PropRel (ApqPropTrace); a case class is (cache kind, request form, observed outcome class). A case is non-trivial by construction: every class is a distinct (form, outcome) pair; evaluations = requests sent.")
 	c.Assume("the real caches are observed only through the public graphql.Cache API (Get / Add) by a recording decorator; what the specification calls the cache at the property level is the OBSERVED BINDING (Add(k,v) and a Get hit (k,v) set k -> v, a Get miss forgets k); a wrong binding that no Get ever shows is not seen (every tour / history ends with a hash-only request for every hash)")
 	c.Assume("a fresh cache built with the same constructor and driven through the same operations is in the same state (state identification by replay in phase L)")
 	c.Assume("the Cache decorator serialises cache operations with its own mutex; a request performs at most one cache operation (checked), which is its linearisation point in concurrent histories")
